@@ -6,9 +6,11 @@ import (
 	"io"
 	"os"
 	"regexp"
+	"sort"
 	"strings"
 	"syscall"
 	"testing"
+	"unicode"
 
 	"go.1password.io/spg"
 	"pgregory.net/rapid"
@@ -66,6 +68,86 @@ var (
 func normaliseDiag(b []byte) string {
 	s := reStamp.ReplaceAllString(string(b), "")
 	return reNum.ReplaceAllString(s, "#")
+}
+
+// diagInterference compares two normalised captures line by line as
+// multisets. Lines that one capture has more of are candidates; a pair of
+// such lines, one from each side, that is the same message with different
+// text (half or more of their words in common, in order, at least one of them
+// a real word) is interference.
+func diagInterference(na, nb string) (string, string, bool) {
+	count := func(s string) map[string]int {
+		m := map[string]int{}
+		for _, l := range strings.Split(s, "\n") {
+			if l = strings.TrimSpace(l); l != "" {
+				m[l]++
+			}
+		}
+		return m
+	}
+	ca, cb := count(na), count(nb)
+	var onlyA, onlyB []string
+	for l, n := range ca {
+		if n > cb[l] && cb[l] == 0 {
+			onlyA = append(onlyA, l)
+		}
+	}
+	for l, n := range cb {
+		if n > ca[l] && ca[l] == 0 {
+			onlyB = append(onlyB, l)
+		}
+	}
+	sort.Strings(onlyA)
+	sort.Strings(onlyB)
+	for _, x := range onlyA {
+		for _, y := range onlyB {
+			if similarLines(x, y) {
+				return x, y, true
+			}
+		}
+	}
+	return "", "", false
+}
+
+func similarLines(x, y string) bool {
+	fx, fy := strings.Fields(x), strings.Fields(y)
+	if len(fx) == 0 || len(fy) == 0 {
+		return false
+	}
+	// longest common subsequence of words
+	l := make([][]int, len(fx)+1)
+	for i := range l {
+		l[i] = make([]int, len(fy)+1)
+	}
+	word := false
+	for i := 1; i <= len(fx); i++ {
+		for j := 1; j <= len(fy); j++ {
+			if fx[i-1] == fy[j-1] {
+				l[i][j] = l[i-1][j-1] + 1
+				if strings.IndexFunc(fx[i-1], unicode.IsLetter) >= 0 {
+					word = true
+				}
+			} else if l[i-1][j] > l[i][j-1] {
+				l[i][j] = l[i-1][j]
+			} else {
+				l[i][j] = l[i][j-1]
+			}
+		}
+	}
+	m := len(fx)
+	if len(fy) < m {
+		m = len(fy)
+	}
+	if word && 2*l[len(fx)][len(fy)] >= m {
+		return true
+	}
+	// or a long common beginning (a message whose payload is not set off by spaces)
+	rx, ry := []rune(x), []rune(y)
+	k := 0
+	for k < len(rx) && k < len(ry) && rx[k] == ry[k] {
+		k++
+	}
+	return k >= 8
 }
 
 // secretFragments lists what must not show up in diagnostics.
@@ -294,9 +376,15 @@ func c18Run(c c18Case) error {
 		}
 	}
 	// non-interference: diagnostics may differ between streams only in numbers
+	// (whether a count-only message appears at all may depend on the stream -
+	// "N candidates were rejected" - so a message present under one stream only
+	// is not blamed; the same message with different text is)
 	na, nb := normaliseDiag([]byte(a.capt)), normaliseDiag([]byte(b.capt))
 	if na != nb {
-		return fmt.Errorf("diagnostic output depends on the random stream beyond counts and probabilities:\n stream 1: %q\n stream 2: %q", trunc(na, 400), trunc(nb, 400))
+		if x, y, bad := diagInterference(na, nb); bad {
+			return fmt.Errorf("diagnostic output depends on the random stream beyond counts and probabilities: stream 1 wrote %q where stream 2 wrote %q\n stream 1: %q\n stream 2: %q", x, y, trunc(na, 400), trunc(nb, 400))
+		}
+		ev.Class("diagnostic_presence_depends_on_stream")
 	}
 	if diagSeen {
 		ev.Class("diagnostic_output_seen")
